@@ -68,6 +68,21 @@ theorem closest_exact_when_no_group_over_limit (K limit : Nat) (hl : limit > 0) 
     have := walkC_exact K limit hl T hroom T [] [] [] (by simp) (by intro e he; cases he) List.nodup_nil (Nat.zero_le _)
     simpa using this
 
+/-- no peer is listed twice, and every listed peer is a crawled peer of the table -/
+theorem closest_nodup_members (K limit : Nat) (T : List (Nat × List Nat)) (hT : (T.map (·.1)).Nodup) :
+    (closest K limit T).Nodup ∧ ∀ p ∈ closest K limit T, ∃ e ∈ T, e.1 = p := by
+  have hs := closest_sublist K limit T
+  refine ⟨hT.sublist hs, fun p hp => ?_⟩
+  obtain ⟨e, he, rfl⟩ := List.mem_map.1 (hs.subset hp)
+  exact ⟨e, he, rfl⟩
+
+/-- a table of at most K peers with no group over the limit is returned whole -/
+theorem closest_whole_table_when_small (K limit : Nat) (hl : limit > 0) (T : List (Nat × List Nat))
+    (hroom : ∀ g, (T.filter fun e => e.2.contains g).length ≤ limit) (hK : T.length ≤ K) :
+    closest K limit T = T.map (·.1) := by
+  rw [closest_exact_when_no_group_over_limit K limit hl T hroom]
+  exact List.take_of_length_le (by simpa using hK)
+
 /-- the same with the limit disabled -/
 theorem closest_exact_when_limit_disabled (K : Nat) (T : List (Nat × List Nat)) : closest K 0 T = (T.map (·.1)).take K := by
   unfold closest
